@@ -5,6 +5,7 @@
  * usage (inside SMPI): c36_prog <script>
  * script: one operation per line, executed by every rank (SPMD); `step` = line number
  *   W <var> <mask> <val>   ranks whose bit is set in mask: variable var := val*64 + rank   (converted to the variable's type)
+ *   a <arr> <idx> <mask> <val>   same for one element of an array;   q <arr> <idx>   print "Q <rank> <step> <arr> <idx> <value>"
  *   C                      print "V <rank> <step> <value of every variable>"
  *   B                      MPI_Barrier
  *   A                      MPI_Allreduce of the rank (stack buffers)
@@ -67,6 +68,27 @@ void c36_set_main(int id, long long v)
   }
 }
 
+static short main_bss[C36_N_MAIN];
+
+long c36_alen(int arr)
+{
+  const long n[C36_NARRS] = {C36_N_ARR, C36_N_BIG, C36_N_MID, C36_N_FS, C36_N_DATA, C36_N_MAIN};
+  return arr >= 0 && arr < C36_NARRS ? n[arr] : 0;
+}
+static long long aget(int arr, long idx)
+{
+  return arr < 2 ? c36_aget_a(arr, idx) : arr < 5 ? c36_aget_b(arr, idx) : main_bss[idx];
+}
+static void aset(int arr, long idx, long long v)
+{
+  if (arr < 2)
+    c36_aset_a(arr, idx, v);
+  else if (arr < 5)
+    c36_aset_b(arr, idx, v);
+  else
+    main_bss[idx] = static_cast<short>(v);
+}
+
 static long long get(int id)
 {
   return id < 10 ? c36_get_a(id) : id < 20 ? c36_get_b(id) : c36_get_main(id);
@@ -111,6 +133,19 @@ int main(int argc, char** argv)
       ss >> var >> mask >> val;
       if ((mask >> rank) & 1)
         set(var, val * 64 + rank);
+    } else if (op == "a") { /* a <array> <index> <mask> <val>: element := val*64 + rank on the ranks of the mask */
+      int arr = 0;
+      long idx = 0, mask = 0;
+      long long val = 0;
+      ss >> arr >> idx >> mask >> val;
+      if (((mask >> rank) & 1) && idx >= 0 && idx < c36_alen(arr))
+        aset(arr, idx, val * 64 + rank);
+    } else if (op == "q") { /* q <array> <index>: print "Q <rank> <step> <array> <index> <value>" */
+      int arr = 0;
+      long idx = 0;
+      ss >> arr >> idx;
+      snprintf(tmp, sizeof tmp, "Q %d %d %d %ld %lld\n", rank, step, arr, idx, idx >= 0 && idx < c36_alen(arr) ? aget(arr, idx) : -999LL);
+      out += tmp;
     } else if (op == "C") {
       snprintf(tmp, sizeof tmp, "V %d %d", rank, step);
       out += tmp;
